@@ -83,9 +83,17 @@ def sensor_names(n):
     return st.lists(base.map(_fix_sensor), min_size=n, max_size=n, unique=True)
 
 
+# upper-cased sensor names become enumerators: keep clear of <cmath>/<cstdio>/<cstdlib> macros (SNAN is one in glibc)
+MACROS = {"SNAN", "SNANF", "SNANL", "NAN", "INFINITY", "HUGE_VAL", "HUGE_VALF", "HUGE_VALL", "EOF", "NULL", "BUFSIZ",
+          "RAND_MAX", "EDOM", "ERANGE", "EILSEQ", "SEEK_SET", "SEEK_CUR", "SEEK_END", "EXIT_SUCCESS", "EXIT_FAILURE",
+          "FP_NAN", "FP_ZERO", "MATH_ERRNO", "M_PI", "M_E", "I", "CHAR_BIT", "INT_MAX", "INT_MIN", "DBL_MAX", "DBL_MIN"}
+
+
 def _fix_sensor(name):
     name = _fix(name)
     name = name.rstrip("_") or "s"
+    if name.upper() in MACROS:
+        name += "x"
     if name.title() in RESERVED or name.title() + "Options" in RESERVED:
         name += "9"
     return name
